@@ -118,11 +118,24 @@ def run(R):
         R.violation("byte-level tree model differs structurally from the real radix tree (dump / lookup / "
                     "well-formedness): " + json.dumps(rtree_corr.first_diff(i, vlib.res_of(m)))[:400],
                     {"case": c, "impl": i, "model": vlib.res_of(m), "kind": "impl-vs-byte-level-model"}, no_input=True)
+    # the clause about the default rule / "no rule", and the repository-level wiring the tree is used through
+    # (rules added in rule-set order, each with its backtracking setting, lookup of the normalised raw path, fall back
+    # to the default rule): rule-set cases through the real rule factory, processor and repository
+    import gen_repo
+    import repo_common
+    nr = 500 if R.tier == "quick" else 20000
+    repo_cases = [gen_repo.gen_repo_case(R.rng) for _ in range(nr)]
+    rimpl, _, _ = repo_common.check_correspondence(R, exe, repo_cases, "lookup through the repository (default rule, no rule, rule-set order)")
+    R.coverage["repository_level_cases"] = nr
+    R.coverage["repository_lookups_default_rule"] = sum(
+        1 for i in rimpl if isinstance(i, list) for x in i if isinstance(x, dict) and x.get("rule") == "config/default")
+    R.coverage["repository_lookups_no_rule"] = sum(
+        1 for i in rimpl if isinstance(i, list) for x in i if isinstance(x, dict) and x.get("err") == "norule")
     if R.tier == "thorough":
         R.coverage["small_scope"] = "all 3-route tables over 11 expressions x 8 flag vectors x 10 paths x 7 accept sets"
     R.assumptions += [
-        "the token-level table model is observationally equivalent to the byte-level radix tree (validated by the "
-        "correspondence run, not proved)",
+        "the byte-level tree refines the token-level table model (Props/C02Byte.lean, proved); the byte-level model is "
+        "tied to the real tree by the structural / behavioural correspondence run",
         "rule-set order inside one node = insertion order of Add (repository adds rules in rule-set order)",
     ]
     for c, i, m in bad[:5]:
